@@ -266,7 +266,21 @@ func (x *Exec) step(s *State, in ssa.Instruction, prev *ssa.BasicBlock) bool {
 	case *ssa.Send:
 		x.E.Note("channel send in %s modelled as an event only", x.fn.String())
 		x.chanEvent(s, "send", in.Chan, in.X)
-	case *ssa.SliceToArrayPointer, *ssa.MultiConvert:
+	case *ssa.SliceToArrayPointer:
+		// (*[N]T)(s) panics when len(s) < N; the resulting pointer is opaque (only handed on, e.g. to a pool)
+		at, _ := in.Type().Underlying().(*types.Pointer).Elem().Underlying().(*types.Array)
+		sv := x.term(s, in.X)
+		if at == nil || sv == nil || sv.Sort.Kind != smt.KSeq {
+			x.unsupported("%T", in)
+			break
+		}
+		x.safety(s, "conv", smt.Le(smt.IntC(at.Len()), smt.SeqLen(sv)))
+		r := x.freshOf(s, in.Type(), "arrptr")
+		if at.Len() > 0 {
+			s.assume(smt.Not(smt.Eq(r, RefNil)))
+		}
+		s.env[in] = TermVal{r}
+	case *ssa.MultiConvert:
 		x.unsupported("%T", in)
 	default:
 		x.unsupported("instruction %T", in)
